@@ -35,6 +35,8 @@ def cases(tier, seed):
     T = 3 if tier == "quick" else 6
     out = []
     scenes = [("pml-4src", (3, 3, 6), True, ("dipole", "plane", "mdipole", "gauss")), ("periodic-2src", (3, 2, 4), False, ("dipole", "mdipole"))]
+    # a dispersive slab anywhere in the volume switches the plane sources to their temporal-filter injection branch
+    scenes.append(("pml-dispersive-plane", (3, 3, 6), True, ("plane", "gauss")))
     if tier != "quick":
         scenes.append(("pml-xy-periodic-gauss", (4, 3, 6), True, ("gauss", "plane")))
     for nm, shape, pml, src in scenes:
@@ -55,7 +57,8 @@ def run_case(c, case):
     shape, T = tuple(case["shape"]), case["T"]
     c.functions.update(META["functions"])
     c.bounds.update(T=T, shape=list(shape))
-    S = _run.scene(shape, T, pml=case["pml"], src_kinds=case["src"])
+    extra = [_run.lorentz_slab(shape, shape[2] - 3)] if "dispersive" in case["name"] else []
+    S = _run.scene(shape, T, pml=case["pml"], src_kinds=case["src"], extra=extra)
     arr, oc, cfg, key = S["arrays"], S["objects"], S["config"], S["key"]
     names = [s.name for s in oc.sources]
     fsh = arr.fields.E.shape
